@@ -10,6 +10,7 @@ import DimodProofs.AnnealDelta
 import DimodProofs.AnnealColor
 import DimodProofs.AnnealSweep
 import DimodProofs.EnumComposite
+import DimodProofs.AnnealClass
 
 /-! # C07 — samplers and composites report each row's true energy over the right variables
 
@@ -429,9 +430,6 @@ theorem truncate_init (n : Int) (b agg : Bool) (rows : List ORow) :
 
 /-! ### non-vacuity of the round-7 statements -/
 
-/-- a child that answers every polynomial with the one row `a = 1, b = -1` and that polynomial's energy of it -/
-def demoChild : Poly → List Row := fun q => [⟨[(.str "a", 1), (.str "b", -1)], polyEnergy (Row.val ⟨[(.str "a", 1), (.str "b", -1)], 0⟩) q⟩]
-
 example : ∀ q, ∀ r ∈ demoChild q, r.energy = polyEnergy r.val q := by
   intro q r hr; simp only [demoChild, List.mem_singleton] at hr; subst hr; rfl
 example : (([([.str "a"], 4), ([.str "a", .str "b"], -2), ([], 3)] : Poly).map (·.1)).Nodup := by decide +kernel
@@ -448,5 +446,44 @@ example : (polyFixedFull (fun _ => []) [([.str "a"], 4), ([.str "a", .str "b"], 
       (fun r => (r.x, r.energy)) = [([(.str "a", 1), (.str "b", -1)], 9)] := by decide +kernel
 example : (polyFixedFull (fun _ => []) [([.str "a"], 4), ([.str "a", .str "b"], -2)] (some [(.str "a", 1)])).length = 0 := by decide +kernel
 example : (match truncateInit 0 true false [] with | .error _ => true | .ok _ => false) = true := by decide +kernel
+
+/-! ## round 7: the simultaneous flips of one colour class add up -/
+
+/-- **one colour class, one energy equation** (closes the gap left after `greedy_coloring_total_and_proper` and
+    `sa_sweep_test_is_true_delta`): in any sweep, whatever the draws and β, when the colour class `c` is processed from
+    the state `sp` reached after the earlier classes, `ising_energy` after the class minus `ising_energy` before it is the
+    sum, over the variables flipped in that class, of exactly the differences `energy_diff_h[v] + energy_diff_J[v]` the
+    acceptance test compared with their draws; the flipped variables are distinct members of the class that passed the
+    test.  (`h` a dict, `J` as `to_ising()` delivers it, the spins a dict.) -/
+theorem sa_class_flips_add_up (h : List (Label × Rat)) (J : List (Label × Label × Rat)) (hh : (h.map (·.1)).Nodup)
+    (hJ : SimpleJ J) (pre post : List (Nat × List Label)) (c : Nat × List Label)
+    (hc : colorClasses h J = pre ++ c :: post) (beta : Option Rat) (draw : Label → Rat) (sp0 : List (Label × Rat))
+    (hsp0 : (sp0.map (·.1)).Nodup) :
+    let sp := pre.foldl (fun sp c => classStep J beta (diffH h sp0) draw sp c.2) sp0
+    let flipped := flippedIn J beta (diffH h sp0) draw sp c.2
+    isingE h J (dictGet (classStep J beta (diffH h sp0) draw sp c.2)) - isingE h J (dictGet sp) =
+        sumL (flipped.map fun v => diffH h sp0 v + diffJ J sp v) ∧
+      flipped.Nodup ∧
+      ∀ v ∈ flipped, v ∈ c.2 ∧ accept beta (draw v) (diffH h sp0 v + diffJ J sp v) = true :=
+  sweep_class_flips_add_up h J hh hJ pre post c hc beta draw sp0 hsp0
+
+/-- flipping ANY set of pairwise non-adjacent variables changes `ising_energy` by the sum of the one-flip differences -/
+theorem nonadjacent_flips_add_up (h : List (Label × Rat)) (J : List (Label × Label × Rat)) (hh : (h.map (·.1)).Nodup)
+    (hs : ∀ t ∈ J, t.1 ≠ t.2.1) (s : Label → Rat) (F : List Label) (hF : F.Nodup) (hind : ∀ u ∈ F, ∀ w ∈ F, w ∉ nbrs J u) :
+    isingE h J (flipSet s F) - isingE h J s = sumL (F.map fun v => isingE h J (flipSpin s v) - isingE h J s) :=
+  flipSet_energy h J hh hs s F hF hind
+
+/-- non-vacuity: the chain a—b—c, class `[a, c]` (see the colouring example above), all spins +1, both flips accepted:
+    the energy goes from 4 to −4 and each tested difference is −4 -/
+example : SimpleJ [(.str "a", .str "b", 1), (.str "b", .str "c", 1)] := by
+  unfold SimpleJ; constructor <;> decide +kernel
+example :
+    let h : List (Label × Rat) := [(.str "a", 1), (.str "b", 0), (.str "c", 1)]
+    let J : List (Label × Label × Rat) := [(.str "a", .str "b", 1), (.str "b", .str "c", 1)]
+    let sp0 : List (Label × Rat) := [(.str "a", 1), (.str "b", 1), (.str "c", 1)]
+    colorClasses h J = [] ++ (0, [.str "a", .str "c"]) :: [(1, [.str "b"])] ∧
+    flippedIn J (some 1) (diffH h sp0) (fun _ => -100) sp0 [.str "a", .str "c"] = [.str "a", .str "c"] ∧
+    isingE h J (dictGet (classStep J (some 1) (diffH h sp0) (fun _ => -100) sp0 [.str "a", .str "c"])) - isingE h J (dictGet sp0) = -8 ∧
+    diffH h sp0 (.str "a") + diffJ J sp0 (.str "a") = -4 := by decide +kernel
 
 end C07
